@@ -111,7 +111,12 @@ struct Run {
       capped = 0, nfp_nonempty = 0, untracked_true = 0;
   uint64_t fi_queries = 0;
 
-  static W toW(uint64_t v) { return static_cast<W>(v); }
+  // weight scale of the case: every weight is (integer units) * wmul. 2^33 puts single weights and counters above 2^32; 0.25 (double
+  // weights only) makes them fractional; all arithmetic stays exact (totals <= 2^61 resp. multiples of 1/4 below 2^53)
+  W wmul = 1;
+  uint64_t unit_limit = WEIGHT_LIMIT;
+  W toW(uint64_t v) const { return static_cast<W>(v) * wmul; }
+  uint64_t units(W w) const { return static_cast<uint64_t>(w / wmul); }
 
   void make_slot(int si, int lg_max, int lg_start) {
     Slot& s = slots[si];
@@ -125,7 +130,7 @@ struct Run {
   // ------------------------------------------------------------ updates
   void update(int si, uint64_t id, uint64_t w, bool rvalue) {
     Slot& s = slots[si];
-    if (s.total + w > WEIGHT_LIMIT) { capped++; return; }
+    if (s.total + w > unit_limit) { capped++; return; }
     const T& item = keys.get(id);
     W before = s.sk->get_maximum_error();
     if (rvalue) { T tmp(item); s.sk->update(std::move(tmp), toW(w)); }
@@ -222,7 +227,7 @@ struct Run {
     if (s.lg_max <= 10 && s.min_lg <= 10) {
       int lg = std::min(s.min_lg, s.lg_max);
       // me <= 3.5 / 2^lg * total  <=>  me * 2^(lg+1) <= 7 * total   (exact integer arithmetic)
-      unsigned __int128 lhs = static_cast<unsigned __int128>(static_cast<uint64_t>(me)) << (lg + 1);
+      unsigned __int128 lhs = static_cast<unsigned __int128>(units(me)) << (lg + 1);
       unsigned __int128 rhs = static_cast<unsigned __int128>(7) * s.total;
       VF_CHECK(lhs <= rhs, "epsilon-bound", "after " << after << ": slot " << si << " max error " << wstr(me) << " > epsilon(lg " << lg << ") * total " << s.total);
       if (lg == s.lg_max) {
@@ -322,7 +327,7 @@ struct Run {
     Slot& s = slots[si];
     const Sk& sk = *s.sk;
     vf::Rng r(seed);
-    const uint64_t me = static_cast<uint64_t>(sk.get_maximum_error());
+    const uint64_t me = units(sk.get_maximum_error());   // thresholds are chosen in weight units and scaled by toW
     std::vector<uint64_t> t = {0, me, me + 1};
     if (me > 0) t.push_back(me - 1);
     if (!s.truth.empty()) {
@@ -330,7 +335,7 @@ struct Run {
         auto it = s.truth.begin();
         std::advance(it, static_cast<long>(r.below(s.truth.size())));
         uint64_t tr = it->second;
-        uint64_t lb = static_cast<uint64_t>(sk.get_lower_bound(keys.get(it->first)));
+        uint64_t lb = units(sk.get_lower_bound(keys.get(it->first)));
         uint64_t c[] = {tr, tr - 1, lb, lb ? lb - 1 : 0, lb + me};
         t.push_back(c[r.below(5)]);
       }
@@ -341,7 +346,7 @@ struct Run {
     const Snap sn = snapshot(si);
     for (uint64_t v : t) {
       check_fi(si, toW(v), sn);
-      if (std::is_floating_point<W>::value && (r.below(4) == 0)) check_fi(si, static_cast<W>(static_cast<double>(v) + 0.5), sn);
+      if (std::is_floating_point<W>::value && (r.below(4) == 0)) check_fi(si, toW(v) + wmul / 2, sn);
     }
   }
 
@@ -424,6 +429,9 @@ struct Run {
 
   // ------------------------------------------------------------ driver
   void run(const Case& cs, bool large) {
+    const int ws = static_cast<int>(static_cast<uint64_t>(cs.get("wscale", 0)) % 4);
+    if (ws == 1) { wmul = static_cast<W>(1ull << 33); unit_limit = 1ull << 28; vf::label("weights-above-2^32"); }
+    else if (ws == 2 && std::is_floating_point<W>::value) { wmul = static_cast<W>(0.25); vf::label("weights-fractional"); }
     for (int i = 0; i < NSLOTS; ++i) {
       int lg = static_cast<int>(cs.get("lg" + std::to_string(i), 3));
       lg = std::max(3, std::min(large ? 12 : 10, lg));
@@ -443,7 +451,7 @@ struct Run {
         Slot& s = slots[si];
         uint64_t idsel = op.uarg(1), wsel = op.uarg(2);
         uint64_t id = (idsel & 1) ? (idsel >> 1) % 64 : ((idsel >> 1) % 3 == 0 ? fresh++ : (idsel >> 1) % 400);
-        uint64_t me = static_cast<uint64_t>(s.sk->get_maximum_error());
+        uint64_t me = units(s.sk->get_maximum_error());
         uint64_t w;
         switch (wsel % 8) {
           case 0: w = 0; break;
@@ -569,7 +577,7 @@ rc::Gen<Case> gen_main() {
   auto lg = []() { return rc::gen::weightedOneOf<int64_t>({{6, vf::range(3, 4)}, {3, vf::range(5, 6)}, {1, vf::range(7, 10)}}); };
   return make_case({{"ttype", range(0, 1)}, {"wtype", range(0, 2)}, {"keymode", pick({0, 0, 1, 2, 2})}, {"cwin", pick({2, 6, 16})},
                     {"lg0", lg()}, {"lg1", lg()}, {"lg2", lg()}, {"lg3", lg()},
-                    {"st0", range(0, 10)}, {"st1", range(0, 10)}, {"st2", range(0, 10)}, {"st3", range(0, 10)}},
+                    {"st0", range(0, 10)}, {"st1", range(0, 10)}, {"st2", range(0, 10)}, {"st3", range(0, 10)}, {"wscale", pick({0, 0, 0, 1, 2, 3})}},
                    oplist(opg, 4, 0.5));
 }
 
